@@ -418,6 +418,33 @@ def _fmt(history):
     return '>'.join('.'.join(str(x) for x in ev) for ev in history)
 
 
+def _bfs(ctx, mgr_name, evs, depth, tag):
+    seen = set()
+    frontier = [[]]
+    for level in range(depth):
+        jobs = []
+        for h in frontier:
+            for i in range(0, len(evs), 6):
+                jobs.append((mgr_name, h, evs[i:i + 6]))
+        del ctx.emitted[:]
+        ctx.pmap(_expand, jobs, chunksize=max(1, len(jobs) // 256))
+        nxt = []
+        for key, h in sorted(ctx.emitted, key=lambda t: (len(t[1]), _fmt(t[1]))):
+            if key not in seen:
+                seen.add(key)
+                ctx.state(key)
+                ctx.nontrivial(key)
+                nxt.append(h)
+        frontier = nxt
+        ctx.note(f'frontier_{tag}_{mgr_name}_depth{level + 1}', len(frontier))
+        if len(frontier) > 6000:
+            ctx.cap(f'frontier_{tag}_{mgr_name}', f'frontier of {len(frontier)} states at depth {level + 1} cut to 6000')
+            frontier = frontier[:6000]
+        if not frontier:
+            break
+    return len(seen)
+
+
 def run(ctx):
     evs = events(ctx.quick)
     depth = 4 if ctx.quick else 6
@@ -427,31 +454,13 @@ def run(ctx):
                 'mode per subscriber, stop_all with/without end messages) for 2 subscribers (A with EndTo and both actions, B without '
                 'EndTo and one action) on each of 4 subscription managers; states merged on (reference model, fault modes, '
                 'subscription table projection). distinct_nontrivial = distinct canonical states' % (depth, len(evs)))
-    total_states = 0
     for mgr_name in ctx.rotate(list(managers)):
-        seen = set()
-        frontier = [[]]
-        for level in range(depth):
-            # split the event list so that all cores are used even for a small frontier
-            jobs = []
-            for h in frontier:
-                for i in range(0, len(evs), 6):
-                    jobs.append((mgr_name, h, evs[i:i + 6]))
-            del ctx.emitted[:]
-            ctx.pmap(_expand, jobs, chunksize=1)
-            nxt = []
-            for key, h in sorted(ctx.emitted, key=lambda t: (len(t[1]), _fmt(t[1]))):
-                if key not in seen:
-                    seen.add(key)
-                    ctx.state(key)
-                    ctx.nontrivial(key)
-                    nxt.append(h)
-            frontier = nxt
-            ctx.note(f'frontier_{mgr_name}_depth{level + 1}', len(frontier))
-            if not ctx.quick and level == depth - 2 and len(frontier) > 1500:
-                ctx.cap(f'frontier_{mgr_name}', f'frontier of {len(frontier)} states at depth {level + 1} cut to 1500')
-                frontier = frontier[:1500]
-        total_states += len(seen)
+        _bfs(ctx, mgr_name, evs, depth, 'full')
+    # deep pass with one subscriber: failure - clean-up - re-subscribe cycles need 7-8 events
+    deep = [('sub', 'A', None), ('fault', 'A', 'refused'), ('fault', 'A', 'notconnected'), ('fault', 'A', 'ok'),
+            ('report', 'metric'), ('housekeeping',), ('tick', 2), ('unsub', 'A', None)]
+    for mgr_name in (('path-sync', 'path-async') if ctx.quick else managers):
+        _bfs(ctx, mgr_name, deep, 8 if ctx.quick else 10, 'deep')
     del ctx.emitted[:]
     ctx.sample({'history': [['sub', 'A', 5], ['tick', 4], ['tick', 2], ['report', 'metric']]})
     ctx.sample({'history': [['sub', 'B', None], ['fault', 'B', 'refused'], ['report', 'metric'], ['report', 'metric']]})
